@@ -17,6 +17,7 @@ func main() {
 	maxLen := fs.Int("len", 6000, "maximal sequence length")
 	out := fs.String("out", "", "output ndjson")
 	regions := fs.Int("regions", 3, "log the regions of the first hit of every n-th case")
+	in := fs.String("in", "", "recorded comparison to repeat (mode witness)")
 	fs.Parse(os.Args[2:])
 	palsd.RegionEvery = *regions
 	w := vt.Create(*out)
@@ -24,6 +25,8 @@ func main() {
 	rng := vt.Rand(*seed, "pals")
 	if os.Args[1] == "packs" {
 		palsd.Packs(w, rng, *n)
+	} else if os.Args[1] == "witness" {
+		palsd.Witness(w, *in)
 	} else if os.Args[1] == "selfsweep" {
 		palsd.SelfSweep(w, rng, *n)
 	} else {
